@@ -183,6 +183,33 @@ template <class D> struct Hist {
     }
   }
 
+  // A constraint built around a witness w of the value it will be applied to: x ~ w.x+d,
+  // x-y ~ (w.x-w.y)+d, x+y ~ (w.x+w.y)+d, a*x - y ~ ...+d with d in -2..2 and every kind of
+  // comparison, so that assumes sit ON the boundary of what the witnesses allow (where an
+  // off-by-one, a wrong strictness or a mishandled disequality shows).
+  cst_t guided_constraint(const State &w, std::set<var_t> &m) {
+    const var_t &x = ivar(), &y = ivar();
+    m.insert(x);
+    lin_t l;
+    z_number at;
+    switch (t.pick(5)) {
+    case 0: l = lin_t(x); at = w.num.at(x); break;
+    case 1:
+    case 2: m.insert(y); l = lin_t(x) - lin_t(y); at = w.num.at(x) - w.num.at(y); break;
+    case 3: m.insert(y); l = lin_t(x) + lin_t(y); at = w.num.at(x) + w.num.at(y); break;
+    default: { z_number a = coef(); m.insert(y); l = lin_t(a, x) - lin_t(y); at = a * w.num.at(x) - w.num.at(y); break; }
+    }
+    lin_t r(at + z_number(t.small_int(2)));
+    switch (t.pick((DOM_CAPS & CAP_DISEQ) ? 6 : 5)) {
+    case 0: return l <= r;
+    case 1: return l < r;
+    case 2: return l >= r;
+    case 3: return l > r;
+    case 4: return l == r;
+    default: return l != r;
+    }
+  }
+
   // ---- concrete helpers -------------------------------------------------------------
   static z_number ev(const lin_t &e, const State &s) {
     z_number r = e.constant();
@@ -566,7 +593,42 @@ template <class D> struct Hist {
   }
 
   // ---- transfer operations: abstract op on A[i] + concrete op on every witness ---------------
+  // Synthesised witnesses (only for domains whose concretisation is exactly what the public
+  // queries expose: a box, or the solution set of the exported difference/octagonal
+  // constraints): a small perturbation of a witness -- one or two variables moved by a few
+  // units, or made equal to another variable -- that passes the complete membership test of
+  // the CURRENT value is a member of it, so it joins the witness set. This makes the witness
+  // sets dense around the boundaries of the value, where transfer functions go wrong.
+  void enrich(unsigned i) {
+#ifdef VERIF_EXACT_GAMMA
+    std::vector<State> &W = S[i].W;
+    if (W.empty() || W.size() >= 12 || A[i].is_bottom())
+      return;
+    unsigned tries = 1 + t.pick(4);
+    for (unsigned q = 0; q < tries && W.size() < 12; q++) {
+      State s = W[t.pick((unsigned)W.size())];
+      const var_t &x = ivar(), &y = ivar();
+      switch (t.pick(4)) {
+      case 0: s.num[x] = s.num[x] + z_number(t.small_int(3)); break;
+      case 1: s.num[x] = s.num[y]; break;
+      case 2: s.num[x] = s.num[y] + z_number(t.small_int(2)); break;
+      default: s.num[x] = s.num[x] + z_number(t.small_int(2)); s.num[y] = s.num[y] + z_number(t.small_int(2)); break;
+      }
+      if (INT64_WEIGHTS && state_has_large_value(s))
+        continue;
+      if (hmember(s, A[i], mo).empty()) {
+        W.push_back(s);
+        R().cls("synthesised_witness");
+      }
+    }
+    dedup(W);
+#else
+    (void)i;
+#endif
+  }
+
   std::string transfer(unsigned i) {
+    enrich(i);
     std::vector<int> kinds = {0, 0, 1, 1, 2, 3, 4, 4, 4, 5, 6, 7, 8};
     if (!u.wides.empty())
       kinds.push_back(9);
@@ -694,7 +756,7 @@ template <class D> struct Hist {
       unsigned n = 1 + t.pick(2);
       std::vector<cst_t> cs;
       for (unsigned q = 0; q < n; q++) {
-        cst_t c = constraint(M);
+        cst_t c = (!W.empty() && t.pick(3) != 0) ? guided_constraint(W[t.pick((unsigned)W.size())], M) : constraint(M);
         cs.push_back(c);
         sys += c;
       }
